@@ -20,6 +20,24 @@ def err_kind(e):
     return n if n in ERR_KINDS else 'Other:' + n
 
 
+def wire(obj):
+    """An object as a chain backend hands it over: for one object in three (chosen by its own bytes, so a replay makes the same
+    choice) the result of decoding its CBOR instead of the object constructed in Python -- only when the decoded object compares
+    equal, prints alike (same iteration order of its maps: the models follow insertion order) and re-encodes to the same bytes, so
+    that both are the same value by the library's own account."""
+    import hashlib
+    try:
+        raw = obj.to_cbor()
+        if hashlib.sha256(raw).digest()[0] % 3:
+            return obj
+        back = type(obj).from_cbor(raw)
+        if back == obj and repr(back) == repr(obj) and back.to_cbor() == raw:
+            return back
+    except Exception:
+        pass
+    return obj
+
+
 _LIVE, _COUNT = {}, [0]
 
 
